@@ -19,6 +19,8 @@ import (
 	"strings"
 	"sync"
 	"time"
+
+	"github.com/versity/versitygw/internal/verifhook"
 )
 
 // IAMCache is an in memory cache of the IAM accounts
@@ -166,6 +168,7 @@ func (c *IAMCache) GetUserAccount(access string) (Account, error) {
 		return Account{}, err
 	}
 
+	verifhook.Point("iamcache.afterFetch")
 	c.iamcache.set(access, a)
 	return a, nil
 }
